@@ -66,7 +66,7 @@ class C18(Machine):
     probe_names = ("query_after_update", "scale_update", "single_edge_update",
                    "complex_impedances", "series_law_checked",
                    "parallel_law_checked", "aliased_update",
-                   "megaohm_circuit")
+                   "megaohm_circuit", "retyped_real_complex")
     real_vs_stub = {"real": ["ResNetwork (constructor, update_resistances, "
                              "all resistive queries, compiled VCFB/ECFB "
                              "kernels)"], "stub": []}
@@ -94,12 +94,14 @@ class C18(Machine):
         cfg = {"lru": lru, "complex": cplx, "ints": a.random() < 0.3,
                "rseed": a.randrange(10 ** 9),
                # milli-ohm ... mega-ohm circuits
-               "mag": a.choice((1.0, 1.0, 1.0, 1e-3, 1e3, 1e6, 1e7))}
-        names = QUERIES_CPLX if cplx else QUERIES_REAL
+               "mag": a.choice((1.0, 1.0, 1.0, 1e-3, 1e3, 1e6, 1e7)),
+               "derive_adjacency": a.random() < 0.3}
+        names = QUERIES_REAL
         ops = []
         for _ in range(o.randrange(4, 16)):
             if o.random() < 0.3:
-                k = o.choice(("random", "scale", "edge"))
+                k = o.choice(("random", "random", "scale", "scale", "edge",
+                              "edge", "retype"))
                 op = {"op": "update", "kind": k}
                 if k == "random":
                     op["rseed"] = o.randrange(10 ** 9)
@@ -135,7 +137,12 @@ class C18(Machine):
         mag = cfg.get("mag", 1.0)
         Rm = resist(A, cfg["rseed"], cplx, cfg["ints"], mag)
         held = Rm.copy()            # the caller's own array
-        net = ResNetwork(held, adjacency=A.copy(), silence_level=3)
+        # constructor paths: adjacency given, or derived from the non-zero
+        # resistances
+        if cfg.get("derive_adjacency"):
+            net = ResNetwork(held, silence_level=3)
+        else:
+            net = ResNetwork(held, adjacency=A.copy(), silence_level=3)
         ref = Circuit(A, Rm)
         if cplx:
             R.probe("complex_impedances")
@@ -150,7 +157,16 @@ class C18(Machine):
         for step, op in enumerate(run["ops"]):
             R.steps += 1
             if op["op"] == "update":
-                if op["kind"] == "random":
+                if op["kind"] == "retype":
+                    # real <-> complex impedances on the same object
+                    cplx = not cplx
+                    new = resist(A, op.get("rseed", step + 1), cplx, False,
+                                 mag)
+                    last_scale = None
+                    held = new.copy()
+                    op = dict(op, alias=False)
+                    R.probe("retyped_real_complex")
+                elif op["kind"] == "random":
                     new = resist(A, op["rseed"], cplx, False, mag)
                     last_scale = None
                 elif op["kind"] == "scale":
@@ -187,6 +203,8 @@ class C18(Machine):
                 R.trace.append(("update", op["kind"]))
                 continue
             name = op["name"]
+            if cplx and name not in QUERIES_CPLX:
+                continue          # judged for real impedances only
             sig_ops.append("q:" + name)
             when = "updated" if n_upd else "initial"
             if n_upd and queried:
